@@ -14,6 +14,10 @@ Open Scope bool_scope.
 Definition H (k ht body : N) : header := {| h_hash := k; h_height := ht; h_body := body |}.
 Definition B (k ht body : N) (txs : list (N * N)) : block :=
   {| b_hdr := H k ht body; b_txs := map (fun p => {| t_hash := fst p; t_body := snd p |}) txs |}.
+(* a block whose n transactions have consecutive hash ids hb, hb+1, ... and digests db, db+1, ... *)
+Fixpoint gen_pairs (n : nat) (hb db : N) : list (N * N) :=
+  match n with O => [] | S m => (hb, db) :: gen_pairs m (hb + 1) (db + 1) end.
+Definition BG (k ht body hb db n : N) : block := B k ht body (gen_pairs (N.to_nat n) hb db).
 Definition T (k body : N) : tx := {| t_hash := k; t_body := body |}.
 
 (** operations with the status the implementation reported *)
@@ -40,7 +44,8 @@ Inductive ckpt :=
 | CK (cur : N * hash)                (* in-memory current block *)
      (dcur : option (hash * N))      (* persisted current block *)
      (win : N * N * N)               (* header index cache: firstIndex, lastIndex, entries *)
-     (cb ct : list hash)             (* hashes the ARC block / transaction caches hold *)
+     (cb : list hash)                (* hashes the ARC block cache holds *)
+     (ct : list (hash * hash))       (* hashes the ARC transaction cache holds, as inclusive id ranges *)
      (qs : list qobs).
 
 Inductive case :=
@@ -63,23 +68,24 @@ Definition status_eqb (a b : status) : bool :=
   match a, b with Added, Added => true | Ignored, Ignored => true | Rejected, Rejected => true | _, _ => false end.
 
 Definition mem (l : list hash) (k : hash) : bool := existsb (N.eqb k) l.
+Definition memr (l : list (hash * hash)) (k : hash) : bool := existsb (fun r => (fst r <=? k) && (k <=? snd r)) l.
 
 Definition byheight_obs (r : byheight) : option (option block) :=
   match r with BHNil => Some None | BHErr => None | BHOk b => Some (Some b) end.
 
-Definition q_ok (cb ct : list hash) (s : store) (q : qobs) : bool :=
+Definition q_ok (cb : list hash) (ct : list (hash * hash)) (s : store) (q : qobs) : bool :=
   match q with
   | QH h byh cached stored blk =>
       (get_block_hash s h =? byh)
       && opt_eqb N.eqb (lookup h (hi_map (s_hic s))) cached
       && opt_eqb N.eqb (lookup h (d_bhash (s_db s))) stored
-      && opt_eqb (opt_eqb block_eqb) (byheight_obs (get_block_by_height (mem cb) (mem ct) s h)) blk
+      && opt_eqb (opt_eqb block_eqb) (byheight_obs (get_block_by_height (mem cb) (memr ct) s h)) blk
   | QK k blk hdr hc =>
-      opt_eqb block_eqb (get_block (mem cb) (mem ct) s k) blk
+      opt_eqb block_eqb (get_block (mem cb) (memr ct) s k) blk
       && opt_eqb header_eqb (get_header_by_hash (mem cb) s k) hdr
       && Bool.eqb (match lookup k (s_hdrcache s) with Some _ => true | None => false end) hc
   | QT k r =>
-      opt_eqb (fun x y => tx_eqb (fst x) (fst y) && (snd x =? snd y)) (get_transaction (mem ct) s k) r
+      opt_eqb (fun x y => tx_eqb (fst x) (fst y) && (snd x =? snd y)) (get_transaction (memr ct) s k) r
   end.
 
 Definition ck_ok (s : store) (c : ckpt) : bool :=
